@@ -7,10 +7,10 @@ from .core import Machinery
 
 LEAF = lambda i, lo=0, hi=1: {"c": "leaf", "id": i, "lo": lo, "hi": hi}
 
-def universe(tier, classes, leaves=None, values=None, signs=(0, 1, -1), ids=("gen", "exp"), comp=2, kids=3, dict_ids=1, exp_ids=()):
+def universe(tier, classes, leaves=None, values=None, signs=(0, 1, -1), ids=("gen", "exp"), comp=2, kids=3, dict_ids=1, exp_ids=(), fix=(-1,)):
     return {"Leaves": {"$set": leaves or [LEAF("a"), LEAF("b"), LEAF("t", -1, 2)]},
             "Classes": set(classes), "Values": {"$set": list(values if values is not None else range(-2, 4))},
-            "SignArgs": {"$set": list(signs)}, "IdOpts": set(ids), "MaxComp": comp, "MaxKids": kids, "DictIds": dict_ids, "ExpIds": set(exp_ids)}
+            "SignArgs": {"$set": list(signs)}, "IdOpts": set(ids), "MaxComp": comp, "MaxKids": kids, "DictIds": dict_ids, "ExpIds": set(exp_ids), "FixOpts": {"$set": list(fix)}}
 
 def random_cases(ctx, n, required, **kw):
     """seeded random recipes; every required coverage region must be hit (else the run is vacuous there)"""
@@ -51,6 +51,10 @@ def run_c01(ctx):
     r2 = ctx.model_check("PuanBuild", u2, invariants=["C01"], dump=True, name="Build_C01_classes")
     cases += spec_cases(ctx, r2)
     cases += random_cases(ctx, 300 if q else 4000, REGIONS, max_box=128)
+    # 16-bit leaf ranges: critical points instead of the full box
+    wc = random_cases(ctx, 150 if q else 2000, ["wide_leaf"], wide=True, max_kids=3, depth=2, values=(-3, 40000))
+    for c in wc: c["wide"] = True
+    cases += wc
     ctx.pmap(drivers.drv_to_poly, _stamp(cases, "drv_to_poly"))
     ctx.validate()
 
@@ -65,6 +69,13 @@ def run_c02(ctx):
     r2 = ctx.model_check("PuanBuild", u2, invariants=["C02", "C02safe"], dump=True, name="Build_C02_classes")
     cases += spec_cases(ctx, r2)
     cases += random_cases(ctx, 300 if q else 4000, REGIONS, max_box=64)
+    # negation pushed inwards next to integer leaves that can go negative (Not / Imply / XNor over mixed children)
+    u3 = universe(ctx.tier, ["Not", "Imply", "Any"] if q else ["Not", "Imply", "Any", "All"], leaves=[LEAF("a"), LEAF("t", -1, 1)] if q else [LEAF("a"), LEAF("b"), LEAF("t", -1, 1)], values=[1], signs=(0,), ids=("gen",), comp=3, kids=2)
+    r3 = ctx.model_check("PuanBuild", u3, invariants=["C02", "C02safe"], dump=True, name="Build_C02_negations")
+    cases += spec_cases(ctx, r3)
+    wc = random_cases(ctx, 150 if q else 2000, ["wide_leaf"], wide=True, max_kids=3, depth=2, values=(-3, 40000))
+    for c in wc: c["wide"] = True
+    cases += wc
     ctx.pmap(drivers.drv_to_poly2, _stamp(cases, "drv_to_poly2", max_full=1 << 12))
     ctx.validate()
 
@@ -74,11 +85,34 @@ def run_c03(ctx):
     u = universe(ctx.tier, ["AtLeast"], comp=2, kids=3, ids=("exp",) if q else ("gen", "exp"), signs=(1, -1) if q else (0, 1, -1))
     r = ctx.model_check("PuanBuild", u, invariants=["C03"], dump=True, name="Build_C03")
     cases = spec_cases(ctx, r, n_over=4)
-    cases += random_cases(ctx, 300 if q else 4000, REGIONS, max_box=128)
+    # sub-propositions pre-fixed by their own bounds ("or by its bounds")
+    u2 = universe(ctx.tier, ["AtLeast", "Any"], leaves=[LEAF("a"), LEAF("t", -1, 1)], comp=2, kids=2, ids=("exp",), signs=(0, -1), values=[0, 1, 2], fix=(-1, 0, 1))
+    r2 = ctx.model_check("PuanBuild", u2, invariants=["C03"], dump=True, name="Build_C03_prefixed")
+    cases += spec_cases(ctx, r2, n_over=2)
+    cases += random_cases(ctx, 300 if q else 4000, REGIONS + ["prefixed_compound"], max_box=128, prefix=0.2)
     ctx.pmap(drivers.drv_evaluate, _stamp(cases, "drv_evaluate"))
     ctx.validate()
 
 # ------------------------------------------------------------------------------------------- C04
+def cicje_recipes():
+    """every rule dictionary shape of Imply.from_cicJE as a recipe: condition (ALL/ANY over one or two ALL/ANY sub conditions,
+    relation keys present or left to their documented default) and consequence of each rule type"""
+    import itertools
+    a, b, c, d, x, y = (LEAF(i) for i in "abcdxy")
+    cons = [_R("All", x, y), _R("Any", x, y), _R("Xor", x, y), _R("AtMost", x, y, v=1), _R("Not", _R("Any", x, y)),
+            _R("All", x, y, id="K"), _R("Xor", x, y, LEAF("z"))]
+    out = []
+    for cn in cons:
+        out.append(cn)
+        for ic in ("All", "Any"):
+            for leaves in ((a, b), (a, b, c), (a,)):
+                out.append(_R("Imply", _R(ic, *leaves), cn))
+                out.append(_R("Imply", _R(ic, *leaves, id="S1"), cn, id="R1"))
+        for oc, i1, i2 in itertools.product(("All", "Any"), repeat=3):
+            out.append(_R("Imply", _R(oc, _R(i1, a, b), _R(i2, c, d)), cn))
+            out.append(_R("Imply", _R(oc, _R(i1, a, b, id="S1"), _R(i2, c, d), id="C1"), cn, id="R1"))
+    return out
+
 def run_c04(ctx):
     q = ctx.tier == "quick"
     u = universe(ctx.tier, ALLC, leaves=[LEAF("a"), LEAF("b"), LEAF("c")], values=[0, 1, 2, 3], signs=(0, 1),
@@ -89,6 +123,9 @@ def run_c04(ctx):
                       ints=False, documented=True, max_box=64, max_kids=5)
     for c in rc: c["vias"] = ["ctor", "json", "from_list", "cicJE"]
     cases += rc
+    cj = [{"recipe": r, "src": "cicje", "vias": ["cicJE", "ctor"]} for r in cicje_recipes()]
+    ctx.region("cicje_shapes", len(cj))
+    cases += cj
     ctx.pmap(drivers.drv_build, _stamp(cases, "drv_build"))
     ctx.validate()
 
@@ -103,7 +140,11 @@ def run_c05(ctx):
                   signs=(0,) if q else (0, -1), ids=("gen",), comp=3, kids=2)
     r2 = ctx.model_check("PuanBuild", u2, invariants=["C05"], dump=True, name="Build_C05_siblings")
     cases += spec_cases(ctx, r2)
-    cases += random_cases(ctx, 300 if q else 4000, REGIONS, max_box=128)
+    # boolean leaves with degenerate bounds (1,1) / (0,0) next to a compound (solver-safe form must be kept)
+    u3 = universe(ctx.tier, ["AtLeast"], leaves=[LEAF("a"), LEAF("k", 1, 1), LEAF("o", 0, 0)], values=[1, 2, 3], signs=(0,), ids=("gen",), comp=2, kids=3)
+    r3 = ctx.model_check("PuanBuild", u3, invariants=["C05"], dump=True, name="Build_C05_degenerate")
+    cases += spec_cases(ctx, r3)
+    cases += random_cases(ctx, 300 if q else 4000, REGIONS + ["degenerate_leaf"], max_box=128)
     ctx.pmap(drivers.drv_negate, _stamp(cases, "drv_negate"))
     ctx.validate()
 
@@ -113,7 +154,7 @@ def run_c06(ctx):
     u = universe(ctx.tier, ["AtLeast"], comp=2, kids=3, ids=("exp",), signs=(1, -1), values=range(-1, 3) if q else range(-2, 4), dict_ids=2)
     r = ctx.model_check("PuanBuild", u, invariants=["C06"], dump=True, name="Build_C06")
     cases = spec_cases(ctx, r, max_interps=12 if q else 60)
-    rc = random_cases(ctx, 300 if q else 4000, REGIONS, max_box=128)
+    rc = random_cases(ctx, 300 if q else 4000, REGIONS + ["prefixed_compound"], max_box=128, prefix=0.2)
     for c in rc: c["max_interps"] = 12 if q else 40
     cases += rc
     ctx.pmap(drivers.drv_partial, _stamp(cases, "drv_partial"))
@@ -125,7 +166,10 @@ def run_c07(ctx):
     u = universe(ctx.tier, ["AtLeast"], comp=2, kids=3 if not q else 2, ids=("exp",), signs=(1, -1), values=range(-1, 3) if q else range(-2, 4), dict_ids=2)
     r = ctx.model_check("PuanBuild", u, invariants=["C07"], dump=True, name="Build_C07")
     cases = spec_cases(ctx, r, max_ids=2, n_dicts=10 if q else 40)
-    rc = random_cases(ctx, 250 if q else 3000, REGIONS, max_box=64)
+    u2 = universe(ctx.tier, ["AtLeast", "Any"], leaves=[LEAF("a"), LEAF("t", -1, 1)], comp=2, kids=2, ids=("exp",), signs=(0, -1), values=[0, 1, 2], fix=(-1, 0, 1), dict_ids=1)
+    r2 = ctx.model_check("PuanBuild", u2, invariants=["C07"], dump=True, name="Build_C07_prefixed")
+    cases += spec_cases(ctx, r2, max_ids=2, n_dicts=8 if q else 30)
+    rc = random_cases(ctx, 250 if q else 3000, REGIONS + ["prefixed_compound"], max_box=64, prefix=0.2)
     for c in rc: c.update(max_ids=3, n_dicts=8 if q else 24)
     cases += rc
     ctx.pmap(drivers.drv_assume, _stamp(cases, "drv_assume"))
@@ -137,7 +181,10 @@ def run_c08(ctx):
     u = universe(ctx.tier, ["AtLeast"], comp=2, kids=3 if not q else 2, ids=("exp",), signs=(1, -1), values=range(-1, 3) if q else range(-2, 4), dict_ids=2)
     r = ctx.model_check("PuanBuild", u, invariants=["C08"], dump=True, name="Build_C08")
     cases = spec_cases(ctx, r, max_ids=2, n_dicts=10 if q else 40)
-    rc = random_cases(ctx, 250 if q else 3000, REGIONS, max_box=64)
+    u2 = universe(ctx.tier, ["AtLeast", "Any"], leaves=[LEAF("a"), LEAF("t", -1, 1)], comp=2, kids=2, ids=("exp",), signs=(0, -1), values=[0, 1, 2], fix=(-1, 0, 1), dict_ids=1)
+    r2 = ctx.model_check("PuanBuild", u2, invariants=["C08"], dump=True, name="Build_C08_prefixed")
+    cases += spec_cases(ctx, r2, max_ids=2, n_dicts=8 if q else 30)
+    rc = random_cases(ctx, 250 if q else 3000, REGIONS + ["prefixed_compound"], max_box=64, prefix=0.2)
     for c in rc: c.update(max_ids=3, n_dicts=8 if q else 24)
     cases += rc
     ctx.pmap(drivers.drv_reduce, _stamp(cases, "drv_reduce"))
@@ -145,7 +192,7 @@ def run_c08(ctx):
 
 # ------------------------------------------------------------------------------------------- C10
 def _R(c, *a, id="", v=0, s=0):
-    return {"c": c, "a": list(a), "id": id, "v": v, "s": s, "d": ""}
+    return {"c": c, "a": list(a), "id": id, "v": v, "s": s, "d": "", "f": -1}
 
 def adversarial_handmade():
     a, b, c, x, y = LEAF("a"), LEAF("b"), LEAF("c"), LEAF("x"), LEAF("y")
@@ -184,6 +231,11 @@ def run_c10(ctx):
                   ids=("gen", "exp"), exp_ids=("P", "Q"), comp=2, kids=2)
     r = ctx.model_check("PuanBuild", u2, invariants=["C10"], dump=True, name="Build_C10_adv_neg")
     cases += spec_cases(ctx, r)
+    # twins: two definitions of one id (opposite signs over symmetric ranges, different values, bounds with equal sums) under different parents
+    u4 = universe(ctx.tier, ["AtLeast"], leaves=[LEAF("t", -2, 2), LEAF("b"), A(0, 3), A(1, 2)] if not q else [LEAF("t", -2, 2), LEAF("b"), A(0, 3)], values=[-1, 1],
+                  signs=(1, -1), ids=("exp",) if q else ("gen", "exp"), exp_ids=("P",), comp=2, kids=2)
+    r = ctx.model_check("PuanBuild", u4, invariants=["C10"], dump=True, name="Build_C10_twins")
+    cases += spec_cases(ctx, r)
     u3 = universe(ctx.tier, ["Any", "All"] if q else ["Any", "All", "AtMost"], leaves=[LEAF("a"), LEAF("b"), LEAF("c")] if not q else [LEAF("a"), LEAF("b")], values=[1],
                   signs=(0,), ids=("gen", "exp"), comp=3, kids=2)
     r = ctx.model_check("PuanBuild", u3, invariants=["C10"], dump=True, name="Build_C10_dag")
@@ -216,7 +268,7 @@ def serial_cases(ctx, inv):
         if n % 3 == 0:       # wrap every third one into a configurator with an explicit or generated id
             rules = [rr] + [g.recipe() for _ in range(ctx.rng.randint(0, 2))]
             ids = set(); ok = True
-            rr = {"c": "Cfg", "a": rules, "id": "cfg" if n % 2 else "", "v": 0, "s": 0, "d": ""}
+            rr = {"c": "Cfg", "a": rules, "id": "cfg" if n % 2 else "", "v": 0, "s": 0, "d": "", "f": -1}
         for f in gen.features(rr): ctx.region(f)
         cases.append({"recipe": rr, "src": "random", "leaf_str": bool(n % 2)})
         n += 1
@@ -238,6 +290,11 @@ def run_c16(ctx):
 
 def run_c17(ctx):
     cases = serial_cases(ctx, ["C17"])
+    # configurators over 16-bit integer items: big-M coefficients beyond 16 bits must survive the packing
+    W = lambda i, lo, hi: LEAF(i, lo, hi)
+    for k, (l1, l2) in enumerate([(W("w", -32768, 32767), W("y", 0, 20000)), (W("w", 0, 30000), W("y", -20000, 5)), (W("w", -32768, 32767), LEAF("a"))]):
+        cases.append({"recipe": _cc("Cfg", _R("AtLeast", l1, l2, LEAF("b"), id="R", v=3 + k, s=1), dict(_cc("ccAny", LEAF("a"), LEAF("b"), LEAF("c"), id="X"), d="a"), id="cfg"),
+                      "src": "handmade", "wide": True})
     ctx.pmap(drivers.drv_b64, _stamp(cases, "drv_b64"))
     ctx.validate()
 
@@ -425,7 +482,7 @@ def cfg_cases(ctx, inv, quick_prios=3):
         rules = [g.recipe() for _ in range(ctx.rng.randint(1, 3))]
         ids = [x["id"] for x in rules if x["id"]]
         if len(ids) != len(set(ids)): continue
-        rr = {"c": "Cfg", "a": rules, "id": "cfg" if n % 2 else "", "v": 0, "s": 0, "d": ""}
+        rr = {"c": "Cfg", "a": rules, "id": "cfg" if n % 2 else "", "v": 0, "s": 0, "d": "", "f": -1}
         if len(_all_ids(rr)) > 11: continue
         for f in gen.features(rr): ctx.region(f)
         cases.append({"recipe": rr, "src": "random", "prios_list": prios_lists(B_leaves(rr), ctx.rng, n=2)})
@@ -489,7 +546,7 @@ def _explicit(r, acc=None):
 
 # ------------------------------------------------------------------------------------------- C09 / C18: call histories
 def _cc(c, *a, id="", d=""):
-    return {"c": c, "a": list(a), "id": id, "v": 0, "s": 0, "d": d}
+    return {"c": c, "a": list(a), "id": id, "v": 0, "s": 0, "d": d, "f": -1}
 
 def api_catalog():
     a, b, c, x, y = LEAF("a"), LEAF("b"), LEAF("c"), LEAF("x"), LEAF("y")
@@ -596,9 +653,14 @@ def run_c09(ctx):
 def run_c18(ctx):
     q = ctx.tier == "quick"
     cat = api_catalog()
-    pairs = [(cat["CfgD"], cat["CfgG"])]
-    states = api_histories(ctx, "API_add", pairs, ["add", "cfg_poly"] if q else ["add", "cfg_poly", "select"], 3, RULES() if not q else RULES()[:5])
-    cases = history_cases(ctx, states, [cat["CfgD"], cat["CfgG"]])
+    a, b, c = LEAF("a"), LEAF("b"), LEAF("c")
+    S_ = _R("Any", a, b, id="S")
+    CfgN = _cc("Cfg", _R("All", S_, c, id="T"), id="cfgn")          # S is a NESTED sub-proposition: adding a rule named S is legitimate
+    cat["CfgN"] = CfgN
+    pairs = [(cat["CfgD"], cat["CfgG"]), (CfgN, cat["CfgD"])]
+    rules = (RULES() if not q else RULES()[:4]) + [S_, _R("All", S_, LEAF("q"), id="T")]
+    states = api_histories(ctx, "API_add", pairs, ["add", "cfg_poly"] if q else ["add", "cfg_poly", "select"], 3, rules)
+    cases = history_cases(ctx, states, [cat["CfgD"], cat["CfgG"], CfgN])
     cases = [c for c in cases if any(x["op"] == "add" for x in c["calls"])]
     if q and len(cases) > 2500:
         ctx.notes.append("quick tier replays a seeded sample of 2500 of the %d enumerated add histories" % len(cases))
@@ -609,8 +671,8 @@ PROPS = {
     "C09": {"run": run_c09, "clauses": {"store_unchanged", "no_unexplained_overwrite", "result_as_fresh", "old_unchanged", "no_exception"}},
     "C18": {"run": run_c18, "clauses": {"refused_iff_clash", "is_direct_build", "id_kept", "old_unchanged", "no_exception"}},
     "C13": {"run": run_c13, "clauses": {m + ":" + c for m in drivers.METHODS for c in ("shape", "exact", "prio_dense", "rank_dense", "zeros_signs", "ties", "order", "dominance", "unknown_method")} | {"no_exception"}},
-    "C14": {"run": run_c14, "clauses": {"ranks", "opt_same", "poly_is_own", "objective_count", "no_exception"}},
-    "C15": {"run": run_c15, "clauses": {"poly_is_own", "objective_count", "objective_by_id", "ids_aligned", "optimal", "model_true", "raises_infeasible", "no_exception"}},
+    "C14": {"run": run_c14, "clauses": {"ranks", "opt_same", "poly_is_own", "objective_count", "cols_cover_leaves", "no_exception"}},
+    "C15": {"run": run_c15, "clauses": {"cols_cover_leaves", "poly_is_own", "objective_count", "objective_by_id", "ids_aligned", "optimal", "model_true", "raises_infeasible", "no_exception"}},
     "C11": {"run": run_c11, "clauses": {"shape", "rows_implied", "cols_forced", "projection", "labels", "loop_inv", "reduce_cols_fn", "reduce_rows_fn", "no_exception"}},
     "C12": {"run": run_c12, "clauses": {"shape", "contain", "no_widen", "contra_only_if_empty", "rowb_exact", "colb", "ncomb", "no_exception"}},
     "C19": {"run": run_c19, "clauses": {"sat_value", "sep_value", "rowsep_value", "no_exception"}},
